@@ -22,7 +22,7 @@ func init() {
 	register(&PropertyCheck{ID: "C08", Level: "other", Run: runC08})
 }
 
-func inMeta(f *ssa.Function) bool {
+func metaPkg(f *ssa.Function) bool {
 	for f.Parent() != nil {
 		f = f.Parent()
 	}
@@ -32,6 +32,75 @@ func inMeta(f *ssa.Function) bool {
 	pp := f.Pkg.Pkg.Path()
 	return pp == ModPath+"/meta" || strings.HasPrefix(pp, ModPath+"/meta/")
 }
+
+// inMeta: f belongs to the parsing packages AND to the code the statements speak
+// of: everything the loaders, the profile reader and the metadata accessors can
+// reach, and every function of those packages that existed when the rules were
+// written (metafns.go). A NEW function that none of those entry points can reach —
+// an additional exported diagnostic next to the loaders, say — is a different API
+// with its own contract; the properties do not quantify over it.
+func inMeta(f *ssa.Function) bool {
+	if !metaPkg(f) {
+		return false
+	}
+	for f.Parent() != nil {
+		f = f.Parent()
+	}
+	if knownMetaFns[shortFn(f)] || scopeProg == nil {
+		return true
+	}
+	if metaReach == nil {
+		metaReach = map[*ssa.Function]bool{}
+		var work []*ssa.Function
+		mark := func(g *ssa.Function) {
+			if g != nil && !metaReach[g] {
+				metaReach[g] = true
+				work = append(work, g)
+			}
+		}
+		for _, g := range scopeProg.SrcFuncs() {
+			if g.Parent() == nil && metaPkg(g) && knownMetaFns[shortFn(g)] {
+				mark(g)
+			}
+		}
+		for len(work) > 0 {
+			g := work[len(work)-1]
+			work = work[:len(work)-1]
+			for _, b := range g.Blocks {
+				for _, in := range b.Instrs {
+					for _, op := range in.Operands(nil) {
+						if op == nil || *op == nil {
+							continue
+						}
+						if h, ok := (*op).(*ssa.Function); ok {
+							mark(h)
+						}
+						if mc, ok := (*op).(*ssa.MakeClosure); ok {
+							if h, ok := mc.Fn.(*ssa.Function); ok {
+								mark(h)
+							}
+						}
+					}
+					if c, ok := in.(ssa.CallInstruction); ok {
+						mark(staticCallee(c))
+						// a method called through an interface: every module method of that name
+						if c.Common().IsInvoke() {
+							for _, h := range scopeProg.SrcFuncs() {
+								if h.Signature.Recv() != nil && h.Name() == c.Common().Method.Name() && metaPkg(h) {
+									mark(h)
+								}
+							}
+						}
+					}
+				}
+			}
+		}
+	}
+	return metaReach[f]
+}
+
+var scopeProg *Program
+var metaReach map[*ssa.Function]bool
 
 // isReadSig reports Read([]byte) (int, error).
 func isReadSig(sig *types.Signature) bool {
